@@ -19,7 +19,8 @@ let perr_name (e : Model.perr) = match e with
   | _ -> "other"
 let ioerr_name (e : Model.ioerr) = match e with
   | EUnexpectedEof -> "UnexpectedEof" | EInvalidInput -> "InvalidInput" | EInvalidData -> "InvalidData"
-  | EInterrupted -> "Interrupted" | _ -> "Other"
+  | EInterrupted -> "Interrupted" | EPermissionDenied -> "PermissionDenied" | ETimedOut -> "TimedOut" | EWouldBlock -> "WouldBlock"
+  | EOther -> "Other"
 
 let width_n s = match String.index_opt s '.' with
   | Some i -> (cn_of_string (String.sub s 0 i), cn_of_string (String.sub s (i + 1) (String.length s - i - 1)))
@@ -78,9 +79,26 @@ let run_seq args =
     else String.concat " " (List.map show_obs obs @ ["| calls " ^ string_of_cn calls])
   | _ -> "bad-args"
 
+(* seqf <k> <kind> <cap> <chunks> <hex> s <ops>: the k-th inner read fails (Webp/BitBufFault.v); no call count is printed by the model *)
+let ioerr_of_name = function
+  | "Other" -> Model.EOther | "PermissionDenied" -> Model.EPermissionDenied | "TimedOut" -> Model.ETimedOut
+  | "WouldBlock" -> Model.EWouldBlock | "InvalidData" -> Model.EInvalidData | "UnexpectedEof" -> Model.EUnexpectedEof
+  | _ -> failwith "bad kind"
+let run_seqf args =
+  match args with
+  | k :: kind :: cap :: chunks :: hex :: _cont :: toks ->
+    let sizes = List.map cn_of_string (split_on ',' chunks) in
+    let trees = List.filter_map (fun t -> match strip_prefix "T" t with Some d -> Some (parse_tree d) | None -> None) toks in
+    let ops = List.filter_map (fun t -> match strip_prefix "T" t with Some _ -> None | None -> Some (parse_op t)) toks in
+    let obs = Model.run_seq_f (cn_of_string k) (ioerr_of_name kind) (cn_of_string cap) sizes (unhex hex) trees ops in
+    if List.exists (fun o -> o = Model.OPanic) obs then "panic"
+    else String.concat " " (List.map show_obs obs)
+  | _ -> "bad-args"
+
 let dispatch kind args =
   match kind with
   | "seq" -> (try run_seq args with Bad_op -> "bad-op")
+  | "seqf" -> (try run_seqf args with Bad_op -> "bad-op")
   | "lossless" | "insitu" -> "unmodelled"
   | _ -> "unknown-kind " ^ kind
 
